@@ -63,7 +63,7 @@ def _items(ctx, rng):
         yield "v2/lan.send", "cross-" + label, b
     for label, b in v2s[::5]:
         yield "v3hs/lan.authenticate", "cross-" + label, b
-    n = 6000 if quick else 150000
+    n = 6000 if quick else 750000
     for _ in range(n):
         r = rng.random()
         if r < 0.35:
@@ -76,7 +76,7 @@ def _items(ctx, rng):
             label, b = A.v3_random(rng, SKEY)
             yield rng.choice(V3_DATA_DRIVERS), label, b
     # several adversarial strings in one reply
-    for _ in range(600 if quick else 12000):
+    for _ in range(600 if quick else 60000):
         parts = [A.v3_random(rng, SKEY) for _ in range(rng.randint(2, 4))]
         yield rng.choice(V3_DATA_DRIVERS), "multi:" + "+".join(p[0] for p in parts), b"".join(p[1] for p in parts)
         parts = [A.v2_random(rng) for _ in range(rng.randint(2, 3))]
